@@ -34,6 +34,7 @@ from gen import tokrx
 from gen import srcdict
 
 ID = "C14"
+STRICT = os.environ.get("VERIF_C14_STRICT") == "1"      # judge also what the language leaves open (see gen/tokrx.py, repeated_group)
 TRUSTED = [
     "correspondence harness harness/props/C14.py (find_all on Identity atoms and on token predicates)",
     "modelled, not verified: Python object identity / deepcopy of predicates (modelled as per-attempt depth maps keyed by predicate)",
@@ -169,6 +170,8 @@ def oracle_id_long(r, w, reply, cap=300):
 
 
 def bad_of(op, r, w, reply):
+    if op != "findall":      # calls of the other entry points in a mixed session: history, judged by C13
+        return []
     return oracle_id_long(r, w, reply) if len(w) > 40 or rx.node_count(r) > 40 else oracle_id(r, w, reply)
 
 
@@ -180,13 +183,19 @@ def identity_histories(ctx):
     ws = [w for w in rx.words((1, 2, 3), ctx.pick(3, 4)) if w]
     hs = obj_streams.sessions([r for r in rx.up_to(ctx.pick(4, 5)) if ok(r)], ws, ("findall",), rnd)
     hs += obj_streams.variants([r for r in rx.up_to(ctx.pick(3, 4)) if ok(r)], ws, ("findall",))
+    mixed = obj_streams.sessions([r for r in rx.up_to(ctx.pick(3, 4)) if ok(r)], ws, ("sw", "findall", "match", "nfa", "findall"), rnd)
+    for n, h in enumerate(mixed):        # the same sessions with the other entry points between the searches, over every alphabet in turn
+        h["kind"] = "session/mixed"
+        h["alphabet"] = list(rx.ALPHABETS)[n % len(rx.ALPHABETS)]
+    hs += mixed
     hs += obj_streams.edits(rnd, ctx.pick(500, 8000), ("findall",), accept_tree=ok, max_word=10)
     hs += obj_streams.ladders(rnd, ("findall",), lengths=ctx.pick((100, 1000, 10000), (100, 1000, 10000, 100000)),
                               widths=ctx.pick((10, 100, 1000), (10, 100, 1000, 10000)), depths=(10, 30, 100),
                               accept_tree=ok, restart=True, segment=24, per_rung=ctx.pick(3, 6))
     rule = ("OBJECT streams for find_all on Identity atoms (oracle: the property on the tree the list denotes at the moment of the call): sessions = all "
             "non-nullable trees of size <= %d x all non-empty sequences of length <= %d over a,b,c with structurally equal operator sub-trees being one "
-            "Python object within and across the patterns of a process, calls repeated; variants = trees of size <= %d over the alphabets %s, operands "
+            "Python object within and across the patterns of a process, calls repeated; session/mixed = the same for the trees of the variants with "
+            "starts_with / match / nfa_match called on the same objects between the searches (only the searches are judged here), alphabets in turn; variants = trees of size <= %d over the alphabets %s, operands "
             "bare / as lists; edits = %d random histories on one list object edited in place between calls; ladders = sequence length %s, pattern "
             "width %s, nesting 10, 30, 100" % (ctx.pick(4, 5), ctx.pick(3, 4), ctx.pick(3, 4), ", ".join(rx.ALPHABETS), ctx.pick(500, 8000),
                                                ctx.pick("10^2..10^4", "10^2..10^5") + " (words of the language separated by a foreign item at most every 24 items: find_all keeps every attempt alive, so its time is quadratic in the length of a run)", ctx.pick("10..10^3", "10..10^4")))
@@ -604,10 +613,55 @@ def run_shape_history(h):
                 E = build()
             elif how != "same":
                 engine_real.edit_in_place(E, build(), how)
+            for (op, toks) in st.get("before", ()):      # other entry points on the SAME expression object first (not judged here)
+                other_entry_point(op, E, mk_tokens(toks))
             ps = matcher.find_all(E, mk_tokens(st["tokens"]))
             out.append("ok %d" % len(ps) + "".join(" %d %d %d" % (p.start, p.end, len(p.tokens)) for p in ps))
         except Exception as e:  # noqa
             out.append("err %d" % engine_real.err_code(e))
+    return out
+
+
+# Entry points of the engine a caller may use on an expression object between two searches.  What they return is the
+# business of C13; here they are HISTORY: none of them may change what the next find_all on the same object reports.
+# nfa_match is left out unless VERIF_C14_STRICT=1: on the unchanged tree it evaluates the caller's predicate objects
+# themselves (no private copy), so nfa_match(E, 'f (') leaves the Balanced of E at depth 1 and the next find_all(E, ..)
+# starts every attempt from that depth (reported as a finding of the round-6 hardening; see FINDINGS in the report).
+ENTRY_POINTS = ("match", "sw", "hdr", "findall") + (("nfa",) if STRICT else ())
+ENTRY_NAMES = {"match": "match(E, %s)", "sw": "starts_with(E, %s)", "nfa": "nfa_match(E, %s)", "findall": "find_all(E, %s)",
+               "hdr": "get_headers(%s, E, followed_by=E)"}
+
+
+def other_entry_point(op, E, toks):
+    from codelimit.common.gsm import matcher
+    try:
+        if op == "match":
+            matcher.match(E, toks)
+        elif op == "sw":
+            matcher.starts_with(E, toks)
+        elif op == "nfa":
+            matcher.nfa_match(E, toks)
+        elif op == "findall":
+            matcher.find_all(E, toks)
+        elif op == "hdr":
+            from codelimit.common.scope.scope_utils import get_headers
+            get_headers(toks, E, E)
+    except Exception:  # noqa  (ambiguity errors, no name token in a header, ...: only the state left behind matters)
+        pass
+
+
+def mixed_steps(rnd, steps, pool):
+    """the session `steps` with one or two calls of other entry points before every search: on the sequence of the
+    step itself, on another sequence of the pool, or on a prefix of either (a prefix ends inside open groups)"""
+    out = []
+    for st in steps:
+        before = []
+        for _ in range(rnd.choice((1, 1, 2))):
+            q = list(st["tokens"] if rnd.random() < 0.5 else rnd.choice(pool))
+            if len(q) > 1 and rnd.random() < 0.6:
+                q = q[:rnd.randint(1, len(q) - 1)]
+            before.append([rnd.choice(ENTRY_POINTS), q[:40]])
+        out.append(dict(st, before=before))
     return out
 
 
@@ -665,17 +719,42 @@ def shrink_shape_history(h, i):
             else:
                 k += 1
         return c
+    def fewer_before(c, budget=60):
+        """drop the calls of other entry points that are not needed, shorten the sequences of the others"""
+        for k in range(len(c["steps"])):
+            b = list(c["steps"][k].get("before", ()))
+            j = 0
+            while j < len(b) and budget:
+                budget -= 1
+                cc = dict(c, steps=[dict(x, before=b[:j] + b[j + 1:]) if n == k else x for n, x in enumerate(c["steps"])])
+                if fails(cc):
+                    c, b = cc, b[:j] + b[j + 1:]
+                else:
+                    j += 1
+            for j in range(len(b)):
+                while len(b[j][1]) > 1 and budget:
+                    budget -= 1
+                    b2 = b[:j] + [[b[j][0], b[j][1][:-1]]] + b[j + 1:]
+                    cc = dict(c, steps=[dict(x, before=b2) if n == k else x for n, x in enumerate(c["steps"])])
+                    if not fails(cc):
+                        break
+                    c, b = cc, b2
+        return c
+
     cur = dict(h, steps=list(h["steps"][:i + 1]))
     if not fails(cur):
         return None
     alone = dict(cur, steps=[dict(cur["steps"][-1], how="new")])
     if fails(alone):
-        return fewer_tokens(alone)
+        return fewer_tokens(fewer_before(alone))
+    nob = dict(cur, steps=[{k: v for k, v in x.items() if k != "before"} for x in cur["steps"]])
+    if fails(nob):
+        cur = nob
     # one earlier step is usually enough: try pairs before the greedy deletion
     for k in range(len(cur["steps"]) - 2, -1, -1):
         c = dict(cur, steps=[dict(cur["steps"][k], how="new"), cur["steps"][-1]])
         if fails(c):
-            return fewer_tokens(c)
+            return fewer_tokens(fewer_before(c))
     k = 0
     budget = 300
     while k < len(cur["steps"]) - 1 and budget:
@@ -685,7 +764,7 @@ def shrink_shape_history(h, i):
             cur = c
         else:
             k += 1
-    return fewer_tokens(cur)
+    return fewer_tokens(fewer_before(cur))
 
 
 def describe_shape_history(h):
@@ -697,6 +776,8 @@ def describe_shape_history(h):
             lines.append("E = %s" % src + ("    # sharing of predicate / operator objects: %s" % h["sharing"] if h.get("sharing", "none") != "none" else ""))
         elif how != "same":
             lines.append("edit E in place (%s) to %s" % (how, src))
+        for (op, toks) in st.get("before", ()):
+            lines.append("  " + ENTRY_NAMES[op] % ("tokens: %s " % " ".join(toks)))
         lines.append("  find_all(E, tokens: %s )" % " ".join(st["tokens"]))
     return lines
 
@@ -737,12 +818,15 @@ def shape_histories(ctx):
             part = seqs[i:i + CH]
             hs.append({"kind": "nested/fresh", "steps": [{"shape": shape, "how": "new", "tokens": q} for q in part]})
             hs.append({"kind": "nested/session", "steps": [{"shape": shape, "how": "same" if n else "new", "tokens": q} for n, q in enumerate(part)]})
+            if i % (3 * CH) == 0:
+                hs.append({"kind": "nested/mixed", "steps": mixed_steps(rnd, [{"shape": shape, "how": "same" if n else "new", "tokens": q} for n, q in enumerate(part)], part)})
     # (b) the built-in shapes: session on the same objects, and in-place edits from one shape to the next
     seqs = seqs_for({"kw": "opt", "group": P_BAL()}, ctx.pick(4, 5), ctx.pick(600, 8000))
     for i in range(0, len(seqs), CH):
         part = seqs[i:i + CH]
         for b in basic:
             hs.append({"kind": "basic/session", "steps": [{"shape": b, "how": "same" if n else "new", "tokens": q} for n, q in enumerate(part)]})
+            hs.append({"kind": "basic/mixed", "steps": mixed_steps(rnd, [{"shape": b, "how": "same" if n else "new", "tokens": q} for n, q in enumerate(part)], part)})
         steps = []
         for n, q in enumerate(part):
             order = [basic[(n + k) % 3] for k in range(3)]
@@ -764,7 +848,9 @@ def shape_histories(ctx):
             "G = Balanced nested in Or / And / Not (%d fixed + %d random predicate trees) x all token sequences up to length %d over the tokens G distinguishes "
             "+ random up to 14, each once on new objects and once in a session of %d calls on the same objects; the three built-in shapes in sessions and "
             "with in-place edits of the expression list from one shape to the next between calls; ladders: nesting depth / groups / headers / "
-            "simultaneously open headers %s" % (len(fixed), len(rand), ctx.pick(5, 6), CH, ctx.pick("10^2..10^4", "10^2..10^5")))
+            "simultaneously open headers %s; MIXED sessions (basic/mixed for every part, nested/mixed for every third): before every search one or two "
+            "calls of the other entry points (%s) on the same expression object, on the same / another sequence or a prefix of it (ending inside open groups)"
+            % (len(fixed), len(rand), ctx.pick(5, 6), CH, ctx.pick("10^2..10^4", "10^2..10^5"), ", ".join(ENTRY_NAMES[o] % ".." for o in ENTRY_POINTS)))
     return hs, rule
 
 
@@ -830,7 +916,6 @@ TOK_ATOMS = {1: ("name",), 2: ("kwd", "kw"), 3: ("sym", "{"), 4: ("val", "x")}
 G_PAR = ("g", P_BAL())
 G_SQ = ("g", P_BAL("[", "]"))
 SHARINGS = ("none", "pred", "ops")
-STRICT = os.environ.get("VERIF_C14_STRICT") == "1"      # judge also what the language leaves open (see gen/tokrx.py, repeated_group)
 
 
 def _leaf_tree(code):
@@ -977,6 +1062,7 @@ def tok_histories(ctx):
     rnd = ctx.rng("tokpat")
     hs = []
     CH = 150
+    MIX = ctx.pick(40, 150)      # searches per session that mixes entry points (each with 1-2 other calls before it)
 
     def both(r, seqs, sharing=None):
         """every sequence once on new objects, and all of them in sessions on the same objects"""
@@ -986,6 +1072,9 @@ def tok_histories(ctx):
             hs.append({"kind": "tok/fresh", "sharing": "pred" if twice and not STRICT else "none", "steps": [{"ast": r, "how": "new", "tokens": q} for q in part]})
             hs.append({"kind": "tok/session", "sharing": sharing or rnd.choice(SHARINGS[1:] if twice and not STRICT else SHARINGS),
                        "steps": [{"ast": r, "how": "same" if n else "new", "tokens": q} for n, q in enumerate(part)]})
+            sub = part if len(part) <= MIX else rnd.sample(part, MIX)
+            hs.append({"kind": "tok/mixed", "sharing": sharing or rnd.choice(SHARINGS[1:] if twice and not STRICT else SHARINGS),
+                       "steps": mixed_steps(rnd, [{"ast": r, "how": "same" if n else "new", "tokens": q} for n, q in enumerate(sub)], part)})
 
     # (a) exhaustive: every non-nullable tree over {Name(), Keyword('kw'), OneOrMore(Balanced('(', ')'))} with a group leaf
     atoms = (1, 2, G_PAR)
@@ -1059,8 +1148,10 @@ def tok_histories(ctx):
             "language-biased ones up to 14; each sequence once on new objects and once in a session of %d calls on the same objects (predicate "
             "objects new / one per distinct predicate / operators shared too); %d histories of 12 calls on one list edited in place from tree to "
             "tree with shared objects; ladders for patterns that begin with a group: %s groups (linear layouts), nesting %s (one attempt per "
-            "open parenthesis: quadratic)" % (" / ".join("%s%d, <= %d" % ("<= " if n == 0 else "", a, b) for n, (a, b) in enumerate(bounds)), nrand, CH, ctx.pick(60, 600),
-                                              "/".join(map(str, lin)), "/".join(map(str, quad))))
+            "open parenthesis: quadratic); tok/mixed = for every session one more on the same objects with up to %d of its searches, each preceded by one or "
+            "two calls of match / starts_with / get_headers(.., E, followed_by=E) / find_all on the same expression object (sequences: the same, another "
+            "one of the session, or a prefix)" % (" / ".join("%s%d, <= %d" % ("<= " if n == 0 else "", a, b) for n, (a, b) in enumerate(bounds)), nrand, CH, ctx.pick(60, 600),
+                                              "/".join(map(str, lin)), "/".join(map(str, quad)), MIX))
     return hs, rule
 
 
